@@ -209,3 +209,21 @@ func (p *Pool) Get(i int) *Key {
 
 // PickOfType returns a pool index of the given type.
 func (p *Pool) PickOfType(r *core.RNG, t KeyType) int { return core.Pick(r, p.ByType[t]) }
+
+// DefaultPool is the pool every plan uses unless it names another one.
+var DefaultPool = [3]uint64{0xC0FFEE, 6, 2}
+
+var poolCache = map[[3]uint64]*Pool{}
+
+// PoolFor returns (and caches) the pool with the given parameters.
+func PoolFor(params [3]uint64) *Pool {
+	if params == ([3]uint64{}) {
+		params = DefaultPool
+	}
+	if p, ok := poolCache[params]; ok {
+		return p
+	}
+	p := NewPool(params[0], int(params[1]), int(params[2]))
+	poolCache[params] = p
+	return p
+}
